@@ -7,6 +7,9 @@ CONSTANTS
   FixSessionWait = TRUE
   FixRefreshWait = FALSE
   FixProcQuit = TRUE
+  FixUpstreamQuitFirst = FALSE
+  FixSignalBeforeWait = FALSE
+  ClientQCap = 4
   NReq = 3
   SessQCap = 1
   MaxRounds = 2
